@@ -73,6 +73,11 @@ func checkC08(tier string) int {
 	for _, st := range []string{"inflight", "queued", "none"} {
 		specs = append(specs, nsqd.MicroSpec{State: st, Eph: true, MemQ: 10, Ops: []string{"disc1", "disc2", "sub3"}})
 	}
+	for _, st := range []string{"inflight", "queued", "none"} {
+		for _, ops := range [][]string{{"del_ch", "sub3"}, {"disc1", "sub3"}, {"del_ch", "pub"}, {"disc1", "disc2", "sub3"}, {"empty_ch", "disc1"}} {
+			specs = append(specs, nsqd.MicroSpec{State: st, EphCh: true, MemQ: 10, Ops: ops})
+		}
+	}
 	triples := [][]string{{"del_ch", "create_ch2", "pub"}, {"del_ch", "pub", "sub3"}, {"empty_ch", "fin1", "scan"}, {"disc1", "sub3", "pub"}, {"del_topic", "pub", "sub3"}, {"empty_ch", "req1", "rdy2"}}
 	for _, tr := range triples {
 		for _, eph := range ephs {
@@ -99,7 +104,14 @@ func checkC08(tier string) int {
 	for _, st := range []string{"none", "inflight"} {
 		especs = append(especs, nsqd.MicroSpec{State: st, Eph: true, Solo: true, MemQ: 10, Ops: []string{"disc1", "sub3"}})
 	}
+	// ... and an explicit delete of an ephemeral channel whose consumer's connection is still
+	// being torn down when a new consumer re-creates the channel (the old connection's late
+	// clean-up must not take the new channel with it)
+	// (ephemeral channel on a durable topic: an ephemeral topic would be auto-deleted too)
+	especs = append(especs, nsqd.MicroSpec{State: "none", EphCh: true, Solo: true, MemQ: 10, Ops: []string{"del_ch", "sub3"}})
 	if tier == "thorough" {
+		especs = append(especs, nsqd.MicroSpec{State: "inflight", EphCh: true, Solo: true, MemQ: 10, Ops: []string{"del_ch", "sub3"}},
+			nsqd.MicroSpec{State: "none", EphCh: true, MemQ: 10, Ops: []string{"del_ch", "sub3"}})
 		especs = append(especs, nsqd.MicroSpec{State: "none", Eph: true, MemQ: 10, Ops: []string{"disc1", "disc2", "sub3"}},
 			nsqd.MicroSpec{State: "queued", Eph: true, Solo: true, MemQ: 0, Ops: []string{"disc1", "sub3"}},
 			nsqd.MicroSpec{State: "tpausedq", MemQ: 0, Sync: true, Ops: []string{"del_topic", "sub3"}},
